@@ -170,7 +170,11 @@ func (w *World) buildRequest(ctx context.Context, rq *Rq) (*http.Request, error)
 	}
 	for f, cl := range rq.Sel {
 		if cl > 0 && f < len(SelFields) {
-			req.Header.Set(SelFields[f], selValue(f, cl, rq.SelSp))
+			if rq.RawKeys == 1 {
+				req.Header[strings.ToLower(SelFields[f])] = []string{selValue(f, cl, rq.SelSp)}
+			} else {
+				req.Header.Set(SelFields[f], selValue(f, cl, rq.SelSp))
+			}
 		}
 	}
 	if rq.Inm > 0 {
@@ -419,6 +423,9 @@ func (r *runner) doReqX(st *Step, x int) {
 							want[k] = v
 						}
 					}
+					if _, ok := w.tagHdr[t304]["Date"]; !ok {
+						delete(want, "Date")
+					}
 				}
 			}
 			// the background revalidation of this very exchange only affects later ones
@@ -445,7 +452,8 @@ func (r *runner) doReqX(st *Step, x int) {
 			// from, with fields replaced by the 304s that freshened it since
 			extra, missing := []string{}, []string{}
 			for k, v := range want {
-				if cacheOwn[k] || k == "Content-Length" || k == "Date" {
+				// (a Date the origin sent is an end-to-end field like any other; one it did not send may be added)
+				if cacheOwn[k] || k == "Content-Length" {
 					continue
 				}
 				if k == "X-Secret" || k == "Etag" && strings.Contains(strings.Join(want["Cache-Control"], ","), `"ETag, X-Secret"`) {
@@ -494,6 +502,18 @@ func (r *runner) doReqX(st *Step, x int) {
 	if st.Cancel == 1 {
 		cancel()
 	}
+	if st.Reuse > 0 && req != nil {
+		// the request belongs to the caller again: it changes a header for its next use while background work
+		// of the cache may still be going on
+		req.Header.Set(SelFields[2], selValue(2, st.Reuse, 0))
+		r.mu.Lock()
+		for _, rp := range r.replies {
+			if rp.req == req {
+				rp.rsnp = req.Header.Clone()
+			}
+		}
+		r.mu.Unlock()
+	}
 }
 
 func allDigits(s string) bool {
@@ -534,6 +554,11 @@ func RunScenario(t *testing.T, sc *Scenario, log *EventLog, seed int64, workDir 
 			}
 			r.dir = d
 			defer os.RemoveAll(d)
+		}
+		// the process's local time zone must not matter
+		time.Local = time.UTC
+		if sc.Opt.Tz != 0 {
+			time.Local = time.FixedZone("verif", sc.Opt.Tz*3600)
 		}
 		log.Emit(M{"ev": "reset", "scn": sc.ID, "backend": sc.Backend, "seed": int(seed % 1000000), "t": w.now(),
 			"swr": swrEffective(sc.Opt), "log": sc.Opt.Log, "grp": sc.Grp, "spv": sc.Spv, "gk": sc.Gk})
